@@ -24,7 +24,7 @@ COMPONENTS = {'real': ['ikesacontroller.main_loop (real thread per node)', 'ikes
               'stub': ['clock', 'select', 'sockets', 'XFRM kernel model', 'randomness', 'hostile source (generator)']}
 ASSUMPTIONS = ['bounded time = interpreted-line budget 20000 + 250 per received octet per loop iteration',
                'authenticated-but-malformed input (needs the peer keys) is exercised by C06, not here']
-EXPECT_REACH = ['hostile_delivered', 'hostile_while_sa', 'kernel_oddity', 'sendto_failure', 'netlink_refusal',
+EXPECT_REACH = ['hostile_delivered', 'hostile_while_sa', 'kernel_oddity', 'sendto_failure', 'receive_failure', 'netlink_refusal',
                 'probe_served', 'byz.auth_malformed', 'byz.auth_malformed.request', 'byz.auth_malformed.response']
 NOT_EXERCISED = []
 PROBE_EVERY = 11.0
@@ -61,6 +61,9 @@ def generate(seed, tier):
     for _ in range(r.randint(0, 3)):
         ops.append({'t': round(r.uniform(0.3, T), 3), 'op': 'sendfail', 'node': 'B', 'nth': r.randint(1, 4),
                     'exc': r.choice(['oserror', 'gaierror', 'eperm'])})
+    for _ in range(r.randint(0, 2)):
+        ops.append({'t': round(r.uniform(0.3, T), 3), 'op': 'recvfail', 'node': 'B', 'sock': r.choice(['udp', 'udp', 'nl']),
+                    'exc': r.choice(['refused', 'noroute'])})
     for _ in range(r.randint(0, 3)):
         ops.append({'t': round(r.uniform(0.3, T), 3), 'op': 'kerr', 'node': 'B', 'nth': r.randint(1, 6),
                     'errno': r.choice(['ENOMEM', 'EINVAL', 'EEXIST', 'ESRCH', 'ENOBUFS'])})
@@ -164,7 +167,7 @@ def _execute(scenario, with_hostile=True):
     sc = scenario
     if not with_hostile:
         sc = copy.deepcopy(scenario)
-        sc['ops'] = [o for o in sc['ops'] if not (o['op'] in ('sendfail', 'kerr', 'kraw') or
+        sc['ops'] = [o for o in sc['ops'] if not (o['op'] in ('sendfail', 'recvfail', 'kerr', 'kraw') or
                                                   (o['op'] == 'call' and o['name'] in ('hostile', 'kodd')))]
         sc.pop('byz', None)
         sc['fate_policy'] = {'mode': 'random', 'lat_range': [0.005, 0.05]}
@@ -217,6 +220,8 @@ def run(scenario):
             reach['sendto_failure'] = reach.get('sendto_failure', 0) + v
         if k.startswith('kern.err'):
             reach['netlink_refusal'] = reach.get('netlink_refusal', 0) + v
+        if k.startswith('sys.recvfrom') or k.startswith('sys.nl_recv'):
+            reach['receive_failure'] = reach.get('receive_failure', 0) + v
     served = ctx.get('served')
     if served is not None and not w.violations:
         if served[0]:
